@@ -69,8 +69,13 @@ func runC20(f *hx.Flags, impl *gpImpl) {
 	r.Res.Extra["worker_processes"] = workers
 	for i, c := range cases {
 		r.Add(c)
-		if i%50 == 49 {
+		if i%10 == 9 {
 			r.Flush()
+			if len(r.Res.Disagreements) >= 3 {
+				// enough failing inputs; shrinking each further one costs minutes of `go list` calls
+				r.Res.Notes["stopped_early"] = fmt.Sprintf("after %d of %d cases: %d in-domain disagreements", i+1, len(cases), len(r.Res.Disagreements))
+				break
+			}
 		}
 	}
 	r.Finish()
